@@ -385,6 +385,10 @@ class C14(Check):
             for s in range(n_sets):
                 m = int(rng.integers(1, n + 1))
                 kind = s % 5
+                large = s in (6, 13, 27)  # more points than any internal block size, sorted along the array
+                if large:
+                    m = int(rng.choice([2**16 + 1, 70001, 2**18 + 1, 300007]))
+                    kind = int(rng.choice([1, 3]))
                 if kind == 0:
                     ra, dec = _uniform(rng, m)
                 elif kind == 1:  # cap around a random centre
@@ -401,10 +405,15 @@ class C14(Check):
                     c = _uniform(rng, 1)
                     ra, dec = np.full(m, c[0][0]), np.full(m, c[1][0])
                 w = None if s % 2 == 0 else rng.uniform(0.1, 10, m)
+                if large:
+                    o = np.argsort(ra)
+                    ra, dec = ra[o], dec[o]
+                    if w is not None:
+                        w = np.sort(w)  # weight grows along the array
                 if s % 3 == 0:
                     # right ascensions given outside [0, 2pi) (valid input): the mean must still be canonical
                     ra = ra + rng.choice([-2 * np.pi, 2 * np.pi, -4 * np.pi], m)
-                if s % 7 == 0:
+                if s % 7 == 0 and not large:
                     m = 1
                     ra, dec = ra[:1], dec[:1]
                     w = None if w is None else w[:1]
